@@ -12,7 +12,7 @@ CLAUSES = {
 }
 BOUNDS = {
     "quick": "rows R<=3, release times on the dt lattice at steps -2..Nsteps+1 (nondecreasing, ties allowed), mult 0..2, window Nsteps<=3, continuous frequency 1..2 steps, forward and reversed, header in file or names in config",
-    "thorough": "R<=4, Nsteps<=5, mult 0..3, frequency 1..3 steps, lon/lat rows through an affine ll2xy",
+    "thorough": "R<=4 (mult 0..1 for R=4), Nsteps<=5, mult 0..3, frequency 1..3 steps, lon/lat rows through an affine ll2xy",
 }
 ASSUMES = ["release times on the model time grid (continuous: file times on the frequency grid anchored at the first file time), table sorted in simulation order",
            "pandas treats object-dtype columns/index of ordered hashable keys like datetime64/float64 ones for filter/groupby/join/ffill/explode (checked concretely by the conformance replays)",
@@ -28,7 +28,7 @@ def scenarios(tier):
     for rev in (False, True):
         for R in ((1, 2, 3) if q else (1, 2, 3, 4)):
             for N in ((3,) if q else (3, 5)):
-                out.append(dict(name=f"discrete-R{R}-N{N}-{'rev' if rev else 'fwd'}", fn="run", params=dict(R=R, N=N, rev=rev, cont=0, mmax=2 if q else 3, names=False), cost=R ** 3 * N))
+                out.append(dict(name=f"discrete-R{R}-N{N}-{'rev' if rev else 'fwd'}", fn="run", params=dict(R=R, N=N, rev=rev, cont=0, mmax=(2 if q else 3) if R < 4 else 1, names=False), cost=R ** 3 * N, max_paths=100000))
         for R in ((1, 2) if q else (1, 2, 3)):
             for f in ((1, 2) if q else (1, 2, 3)):
                 N = 3 if q else 5
